@@ -227,7 +227,14 @@ def embedAccs (sw : Bool × Bool) (files : Disk) (embeds : List String) : List A
 def embedIfaces (on : Bool) (files : Disk) (suffix : String) (embeds : List String) : List (String × List String) :=
   if on then embeds.filterMap (fun e => (lookupIface files (e ++ suffix)).map (fun ms => (e, ms))) else []
 
-def newStep (lk : Leaks) (fl : NFlags) (files : Disk) (st : NSt) (t : NType) : NSt × Option NOut :=
+/-- the struct types a type embeds (any depth), as makeGetSet visits them: not shadowed, once per name -/
+def embedsOf (t : NType) : List String :=
+  ((onceAux ((Ctor.flatten t.tree).filter (fun f => !f.isShadowed)) []).filter (·.isEmbeded)).map (·.name)
+
+/-- MakeData given what the package scope says about the embedded types' accessor interfaces
+    (`getE` / `setE`: embedded type ↦ methods of its Getter / Setter interface; `eaccs`: the same as `shoot.Func`s) -/
+def newCore (lk : Leaks) (fl : NFlags) (st : NSt) (t : NType)
+    (getE setE : List (String × List String)) (eaccs : List Acc) : NSt × Option NOut :=
   -- MakeData: `g.getter = true; g.setter = true; g.data = New…`, then parseFields
   let hasNewIn := lk.hasNew && st.hasNew
   let accsIn := if lk.newAcc then st.accs else []
@@ -236,10 +243,7 @@ def newStep (lk : Leaks) (fl : NFlags) (files : Disk) (st : NSt) (t : NType) : N
   let hasNew := hasNewIn || Ctor.hasNewTop t.tree
   -- makeGetSet: shadowed entries are skipped, then one entry per name
   let once := onceAux (fields.filter (fun f => !f.isShadowed)) []
-  let embeds := (once.filter (·.isEmbeded)).map (·.name)
-  let getE := embedIfaces sw.1 files "Getter" embeds
-  let setE := embedIfaces sw.2 files "Setter" embeds
-  let accs := accsIn ++ embedAccs sw files embeds
+  let accs := accsIn ++ eaccs
   let plain := once.filter (fun f => !f.isEmbeded)
   let getList := if sw.1 then (plain.filter (fun f => (flagsOf t f).1)).map (·.name) else []
   let setList := if sw.2 then (plain.filter (fun f => (flagsOf t f).2)).map (·.name) else []
@@ -267,6 +271,13 @@ def newStep (lk : Leaks) (fl : NFlags) (files : Disk) (st : NSt) (t : NType) : N
       ifaceGet := if hasG then some { embeds := getE.map (·.1 ++ "Getter"), methods := getList.map Transfer.pascalS } else none,
       ifaceSet := if hasS then some { embeds := setE.map (·.1 ++ "Setter"), methods := setList.map (fun n => "Set" ++ Transfer.pascalS n) } else none }
   ({ hasNew := hasNew, accs := accs, getter := sw.1, setter := sw.2, fields := fields }, some out)
+
+/-- MakeData: the ONLY reads of generated files are the three look-ups below -/
+def newStep (lk : Leaks) (fl : NFlags) (files : Disk) (st : NSt) (t : NType) : NSt × Option NOut :=
+  newCore lk fl st t
+    (embedIfaces (switchOf fl t).1 files "Getter" (embedsOf t))
+    (embedIfaces (switchOf fl t).2 files "Setter" (embedsOf t))
+    (embedAccs (switchOf fl t) files (embedsOf t))
 
 def newGFile (t : NType) (o : NOut) : GFile :=
   { name := t.file,
